@@ -3445,6 +3445,7 @@ def commit_tree_changes(
         assert isinstance(sha_obj, Tree)
         tree_obj = sha_obj
     nested_changes: dict[bytes, list[tuple[bytes, int | None, ObjectID | None]]] = {}
+    new_entries: list[tuple[bytes, int, ObjectID]] = []
     for path, new_mode, new_sha in changes:
         try:
             (dirname, subpath) = path.split(b"/", 1)
@@ -3453,7 +3454,9 @@ def commit_tree_changes(
                 del tree_obj[path]
             else:
                 assert new_mode is not None
-                tree_obj[path] = (new_mode, new_sha)
+                # Applied after the nested changes, so that a directory can be
+                # replaced by a file (its contents deleted, the name re-added).
+                new_entries.append((path, new_mode, new_sha))
         else:
             nested_changes.setdefault(dirname, []).append((subpath, new_mode, new_sha))
     for name, subchanges in nested_changes.items():
@@ -3469,6 +3472,8 @@ def commit_tree_changes(
             del tree_obj[name]
         else:
             tree_obj[name] = (stat.S_IFDIR, subtree.id)
+    for path, new_mode, new_sha in new_entries:
+        tree_obj[path] = (new_mode, new_sha)
     object_store.add_object(tree_obj)
     return tree_obj.id
 
